@@ -17,6 +17,10 @@ What is added to the loop-free subset (nothing in py2lean.py / gen_kernels2.py i
                  (`fuel={'loop1': 'rows'}`), evaluated in the scope of the loop entry.  When the fuel runs out while the test
                  still holds the result is `Except.error "OutOfFuel"` (Python would still be looping), so a bridge theorem
                  `Gen.f x = .ok (...)` is at the same time the proof that the declared fuel suffices;
+  * numpy / dict `numpy` int vectors of length 2 (`__npvec__(a, b)`, introduced by the job's aliases for `numpy.zeros(2)` / `numpy.array([a, b])`)
+                 with `+`, `v[0]`, `v[1]`; dicts `{int: vector}` as association lists (`{k: v}`, `d[k]`, `d[k] = v`).  Vectors have VALUE
+                 semantics in Lean, so every in-place update `x op= e` of a vector / dict / list variable is REFUSED (numpy's `+=` mutates
+                 the object all aliases share); `x op= e` on ints is `x = x op e`;
   * `int(round(a / b))` -> `roundDiv a b` (Python 3 round-half-to-even of the exact quotient; operands < 2^52).
 
 Loop-carried variables = the names assigned in the loop (incl. the lists appended to) that are bound before the loop, in
@@ -39,6 +43,9 @@ import sys
 sys.path.insert(0, os.path.dirname(os.path.abspath(__file__)))
 from py2lean import Tr, Unsupported, Restart, INT, OPT, BOOL, SLICE, ITEM, NONE, mangle
 from gen_kernels2 import TrX
+
+
+NPVEC, DICT2 = 'NpVec2', 'PyDict2'
 
 
 def tup(n):
@@ -71,7 +78,7 @@ def is_tuple(t):
 
 
 def is_list(t):
-    return isinstance(t, str) and t.startswith('List (')
+    return isinstance(t, str) and t.startswith('List (') and len(tuple_parts(t)) == 1
 
 
 def elem_type(t):
@@ -96,8 +103,10 @@ def default_of(t):
         return 'none'
     if t == BOOL:
         return 'false'
-    if is_list(t):
+    if is_list(t) or t == DICT2:
         return '[]'
+    if t == NPVEC:
+        return '((0, 0) : NpVec2)'
     if is_tuple(t):
         return '(' + ', '.join(default_of(p) for p in tuple_parts(t)) + ')'
     raise Unsupported(f'no default for {t}')
@@ -163,6 +172,18 @@ class TrL(TrX):
                     raise Unsupported(f'element type of the empty list {x} is not determined by an append of a tuple')
                 st = ast.Assign(targets=st.targets, value=ast.Call(func=ast.Name(id='__nil__', ctx=ast.Load()),
                                                                    args=[ast.Constant(value=self.arity[x])], keywords=[]))
+            if isinstance(st, ast.Assign) and len(st.targets) == 1 and isinstance(st.targets[0], ast.Subscript) and isinstance(st.targets[0].value, ast.Name) \
+                    and not isinstance(st.targets[0].slice, (ast.Slice, ast.Tuple)):
+                # `d[k] = v` on a dict variable: read as `d = dictSet(d, k, v)` (the dict is never aliased in the subset)
+                d = st.targets[0].value.id
+                st = ast.Assign(targets=[ast.Name(id=d, ctx=ast.Store())],
+                                value=ast.Call(func=ast.Name(id='__dictset__', ctx=ast.Load()),
+                                               args=[ast.Name(id=d, ctx=ast.Load()), st.targets[0].slice, st.value], keywords=[]))
+            if isinstance(st, ast.AugAssign) and isinstance(st.target, ast.Name):
+                # `x op= e`: rebinding for ints, IN-PLACE for numpy arrays - decided when the type of x is known (`__aug__`)
+                st = ast.Assign(targets=[ast.Name(id=st.target.id, ctx=ast.Store())],
+                                value=ast.Call(func=ast.Name(id='__aug__', ctx=ast.Load()),
+                                               args=[ast.Name(id=st.target.id, ctx=ast.Load()), st.value, ast.Constant(value=type(st.op).__name__)], keywords=[]))
             if isinstance(st, (ast.For, ast.While)):
                 if st.orelse:
                     raise Unsupported('else clause of a loop')
@@ -254,8 +275,41 @@ class TrL(TrX):
         if isinstance(e, ast.Tuple):
             parts = [self.as_int(x, env, pre) for x in e.elts]
             return '(' + ', '.join(parts) + ')', tup(len(parts))
+        if isinstance(e, ast.Dict) and len(e.keys) == 1 and e.keys[0] is not None:
+            k = self.as_int(e.keys[0], env, pre)
+            v, tv = self.expr(e.values[0], env, pre)
+            if tv != NPVEC:
+                raise Unsupported(f'dict of {tv}')
+            return f'([({k}, {v})] : PyDict2)', DICT2
+        if isinstance(e, ast.BinOp) and isinstance(e.op, ast.Add) and not isinstance(e.right, ast.List):
+            p1, p2 = [], []
+            a, ta = self.expr(e.left, env, p1)
+            if ta == NPVEC:
+                b, tb = self.expr(e.right, env, p2)
+                if tb != NPVEC:
+                    raise Unsupported(f'numpy vector + {tb}')
+                pre += p1 + p2
+                return f'(npAdd2 {a} {b})', NPVEC
+        if isinstance(e, ast.Subscript) and not isinstance(e.slice, (ast.Slice, ast.Tuple)):
+            p1 = []
+            s0, t0 = self.expr(e.value, env, p1)
+            if t0 == DICT2:
+                pre += p1
+                k = self.as_int(e.slice, env, pre)
+                v = self.fresh('x')
+                pre.append(f'let {v} ← dictGet {s0} {k}')
+                return v, NPVEC
+            if t0 == NPVEC:
+                pre += p1
+                if not (isinstance(e.slice, ast.Constant) and e.slice.value in (0, 1)):
+                    raise Unsupported('index of a numpy vector of length 2')
+                return f'{s0}.{e.slice.value + 1}', INT
         if isinstance(e, ast.Subscript) and isinstance(e.slice, ast.Constant) and isinstance(e.slice.value, int):
             s, t = self.expr(e.value, env, pre)
+            if is_list(t):
+                v = self.fresh('x')
+                pre.append(f'let {v} ← pyIndex {s} ({e.slice.value} : Int)')
+                return v, elem_type(t)
             if is_tuple(t):
                 ps = tuple_parts(t)
                 k = e.slice.value
@@ -281,6 +335,27 @@ class TrL(TrX):
             return f'({l} ++ [{x}])', t
         if isinstance(e, ast.Call) and isinstance(e.func, ast.Name):
             f = e.func.id
+            if f == '__npvec__' and len(e.args) == 2:
+                return f'(({self.as_int(e.args[0], env, pre)}, {self.as_int(e.args[1], env, pre)}) : NpVec2)', NPVEC
+            if f == '__dictset__':
+                d, td = self.expr(e.args[0], env, pre)
+                if td != DICT2:
+                    raise Unsupported(f'item assignment on {td}')
+                k = self.as_int(e.args[1], env, pre)
+                v, tv = self.expr(e.args[2], env, pre)
+                if tv != NPVEC:
+                    raise Unsupported(f'dict value of {tv}')
+                return f'(dictSet {d} {k} {v})', DICT2
+            if f == '__aug__':
+                p1 = []
+                _, tx = self.expr(e.args[0], env, p1)
+                if tx in (NPVEC, DICT2) or is_list(tx):
+                    raise Unsupported(f'in-place `{e.args[0].id} {e.args[2].value}=` on a {tx}: the object may be shared with other names / containers '
+                                      '(value semantics of the translation would be wrong)')
+                op = {'Add': ast.Add, 'Sub': ast.Sub, 'Mult': ast.Mult, 'FloorDiv': ast.FloorDiv, 'Mod': ast.Mod}.get(e.args[2].value)
+                if op is None:
+                    raise Unsupported('augmented assignment ' + e.args[2].value)
+                return self.expr(ast.BinOp(left=e.args[0], op=op(), right=e.args[1]), env, pre)
             if f == '__nil__':
                 t = lst(e.args[0].value)
                 return f'([] : {t})', t
